@@ -47,7 +47,28 @@ def sh(cmd, cwd=None, timeout=None, env=None, stdin=None):
 
 
 # ------------------------------------------------------------------ Coq
+def coq_project():
+    """_CoqProject lists every .v under Base/ Model/ Gen/ Proofs/ Props/ except *_audit.v
+    (audits are compiled fresh by every check)."""
+    files = []
+    for d in ("Base", "Model", "Gen", "Proofs", "Props"):
+        dd = os.path.join(COQ, d)
+        if os.path.isdir(dd):
+            for f in sorted(os.listdir(dd)):
+                if f.endswith(".v") and not f.endswith("_audit.v"):
+                    files.append("%s/%s" % (d, f))
+    text = "-Q . DF\n" + "\n".join(files) + "\n"
+    proj = os.path.join(COQ, "_CoqProject")
+    try:
+        old = open(proj).read()
+    except OSError:
+        old = None
+    if old != text:
+        open(proj, "w").write(text)
+
+
 def coq_makefile():
+    coq_project()
     mk = os.path.join(COQ, "Makefile")
     proj = os.path.join(COQ, "_CoqProject")
     if (not os.path.exists(mk)) or os.path.getmtime(mk) < os.path.getmtime(proj):
@@ -236,17 +257,19 @@ def harness_prepare():
         shutil.copy(src, lock)
 
 
-def cargo_build(crate, features=None, timeout=3000):
+def cargo_build(crate, features=None, timeout=3000, bin=None):
     harness_prepare()
     cmd = ["cargo", "build", "--offline", "-p", crate]
+    if bin:
+        cmd += ["--bin", bin]
     if features:
         cmd += ["--features", ",".join(features)]
     rc, out, dt = sh(cmd, cwd=HARNESS, timeout=timeout)
     return rc == 0, out, dt
 
 
-def run_bin(crate, args, timeout=1800, stdin=None, env_extra=None):
-    exe = os.path.join(TARGET, "debug", crate)
+def run_bin(exe_name, args, timeout=1800, stdin=None, env_extra=None):
+    exe = os.path.join(TARGET, "debug", exe_name)
     env = dict(ENV)
     if env_extra:
         env.update(env_extra)
